@@ -39,7 +39,10 @@ RULE_ADDED = (
               'Round 9: tool command lines spelled with long options and -v / --verbose now and'
               ' then. '
               ' '
-              'Round 10: one image in five has a hash beginning or ending with a zero byte. ')
+              'Round 10: one image in five has a hash beginning or ending with a zero byte. '
+              ' '
+              'Round 11: images addressed by bare relative names that read like data (64 hex di'
+              'gits, 0x..., numbers, true, None). ')
 RULE = RULE + " " + RULE_ADDED.strip()
 ASSUMPTIONS = [
     "own Intel-HEX writer (pv/gen/ihex.py); areas do not overlap",
@@ -310,7 +313,9 @@ def run_case_(acc, cseed, tmpdir, state):
                               "-p", pubp])
     finally:
         ecdsa.SigningKey.generate = orig_generate
-    written = sorted(set(p for p in _opened if p.startswith(tmpdir)))
+    # (the tools may have been given bare relative names: absolute for comparison)
+    written = sorted(set(os.path.abspath(p) for p in _opened
+                         if os.path.abspath(p).startswith(tmpdir)))
     acc.count("signing_runs")
     if code != 0:
         acc.violation("signonetime-failed", {"code": code, "out": out[-300:]}, case)
@@ -319,7 +324,7 @@ def run_case_(acc, cseed, tmpdir, state):
         acc.violation("signonetime-generated-%d-keys" % len(generated), {}, case)
         return
     sk = generated[0]
-    want_files = sorted([pubp] + [im[0] + ".sig" for im in images])
+    want_files = sorted([pubp] + [os.path.abspath(im[0] + ".sig") for im in images])
     new_files = sorted(tree(tmpdir) - before)
     if written != want_files or sorted(set(new_files) | set()) != want_files:
         acc.violation("signonetime-wrote-other-files",
